@@ -1,6 +1,896 @@
-//! C32 — not implemented yet.
-use mc_core::Ctx;
+//! C32 — transaction identifiers commit to the whole transaction.
+//!
+//! Seeds (built with the real models / signers, txseeds.rs): 3 V1 notarized transactions (with/without signatures,
+//! blobs, plaintext / encrypted messages, references), 2 V2 notarized transactions (0 subintents + timestamps + tip;
+//! 2 subintents with a nested child, signatures, messages, blobs), a signed partial transaction, and ledger
+//! transactions (round update, genesis flash, genesis system transaction, protocol-update flash, user V1 / V2 wrappers).
+//!
+//! Every payload P derived from a seed O (below) is pushed through the real `prepare`. The oracle is written from the
+//! statement, using the typed model only to name the *content* of each hashed part (its canonical encoding):
+//!   (a) canonical: if P prepares and decodes as the typed model, re-encoding must reproduce P byte for byte;
+//!   (b) per hashed part present in O and P (intent / signed intent / notarized; transaction intent / each subintent;
+//!       ledger / inner): content equal <=> hash equal ("a function of the content only" and "changing any field of a
+//!       hashed part changes the corresponding hash"); in particular P != O  =>  top-level hash differs;
+//!   (c) must be rejected: any appended byte, any other payload-prefix byte, any other top-level discriminator, counts
+//!       over the PreparationSettings limits (blobs, subintents, children per intent, user / ledger payload bytes;
+//!       the values at the limit must prepare).
+//! Derived payloads: (1) O itself, re-prepared, re-encoded, and prepared from the typed model; (2) structural: O is
+//! decoded to a ManifestValue tree and EVERY node gets every local perturbation (ints +-1, bool flip, string
+//! append/drop/change, enum discriminator +-1, add/remove a field / element / entry, custom values altered) and is
+//! re-encoded; (3) byte level: every single-byte substitution (all 255 values at every offset), every deletion,
+//! duplication, truncation, and all 256 appended bytes; thorough: additionally every substitution of two adjacent bytes
+//! (255 x 255 per offset) on six of the seeds.
+use crate::txseeds::*;
+use mc_core::{catch, par_range, Ctx, Level, Local};
+use radix_common::prelude::*;
+use radix_engine_interface::prelude::*;
+use radix_transactions::model::*;
+use radix_transactions::prelude::ManifestBuilder;
+use serde_json::{json, Map, Value};
+use std::collections::BTreeMap;
+use std::sync::atomic::{AtomicU64, Ordering};
 
-pub fn run(_ctx: Ctx) -> ! {
-    mc_core::machinery_error("C32: not implemented")
+#[derive(Clone, Copy, Debug, PartialEq, Eq)]
+enum Kind {
+    User,
+    Partial,
+    Ledger,
+}
+
+struct Seed {
+    name: &'static str,
+    kind: Kind,
+    raw: Vec<u8>,
+}
+
+// ------------------------------------------------------------------------------------------------
+// seeds
+// ------------------------------------------------------------------------------------------------
+
+fn seed_specs() -> Vec<(&'static str, TxSpec)> {
+    let mut out = vec![];
+    // V1, bare
+    out.push(("v1-bare", TxSpec::base(false)));
+    // V1, 2 signatures (both curves), blobs, plaintext message, ed25519 notary that is a signatory
+    let mut s = TxSpec::base(false);
+    s.root.signers = vec![KeyId::Secp(1), KeyId::Ed(3)];
+    s.root.blobs = 2;
+    s.root.blob_size = 6;
+    s.root.message = MsgSpec::Plain { mime_len: 10, bytes: false, len: 12 };
+    s.notary = KeyId::Ed(901);
+    s.notary_is_signatory = true;
+    s.tip = 7;
+    out.push(("v1-signed-blobs-plaintext", s));
+    // V1, encrypted message on both curves, references
+    let mut s = TxSpec::base(false);
+    s.root.signers = vec![KeyId::Secp(2)];
+    s.root.refs = 2;
+    s.root.message = MsgSpec::Enc { len: 20, ed: Some(1), secp: Some(2), swap_curves: false };
+    out.push(("v1-encrypted-refs", s));
+    // V2, no subintents, timestamps, tip, one signature
+    let mut s = TxSpec::base(true);
+    s.root.signers = vec![KeyId::Ed(3)];
+    s.root.min_ts = Some(1_700_000_000);
+    s.root.max_ts = Some(1_700_000_600);
+    s.tip = 250;
+    out.push(("v2-no-subintents-timestamps", s));
+    // V2, root -> sub0 -> sub1, signatures everywhere, messages, blobs, references
+    let mut s = TxSpec::base(true);
+    s.root.signers = vec![KeyId::Secp(1)];
+    s.root.children = vec![0];
+    s.root.message = MsgSpec::Plain { mime_len: 4, bytes: true, len: 5 };
+    s.root.blobs = 1;
+    let mut a = IntentSpec::base(1);
+    a.children = vec![1];
+    a.signers = vec![KeyId::Secp(2), KeyId::Ed(3)];
+    a.message = MsgSpec::Enc { len: 8, ed: Some(1), secp: None, swap_curves: false };
+    a.refs = 1;
+    let mut b = IntentSpec::base(2);
+    b.signers = vec![KeyId::Ed(4)];
+    b.max_ts = Some(99);
+    b.blobs = 1;
+    s.subs = vec![a, b];
+    s.notary_is_signatory = true;
+    out.push(("v2-nested-subintents", s));
+    out
+}
+
+fn partial_spec() -> TxSpec {
+    let mut s = TxSpec::base(true);
+    s.root.signers = vec![KeyId::Secp(1), KeyId::Ed(3)];
+    s.root.children = vec![0];
+    let mut a = IntentSpec::base(1);
+    a.signers = vec![KeyId::Secp(2)];
+    a.message = MsgSpec::Plain { mime_len: 3, bytes: false, len: 3 };
+    s.subs = vec![a];
+    s
+}
+
+fn seeds() -> Vec<Seed> {
+    let mut out = vec![];
+    let mut user_v1 = None;
+    let mut user_v2 = None;
+    for (name, spec) in seed_specs() {
+        let (built, raw) = build(&spec).expect("seed builds");
+        match built {
+            BuiltTx::V1(t) if name == "v1-signed-blobs-plaintext" => user_v1 = Some(t),
+            BuiltTx::V2(t) if name == "v2-nested-subintents" => user_v2 = Some(t),
+            _ => {}
+        }
+        out.push(Seed { name, kind: Kind::User, raw: raw.to_vec() });
+    }
+    out.push(Seed { name: "partial-signed", kind: Kind::Partial, raw: build_signed_partial_v2(&partial_spec()).to_raw().expect("encodes").to_vec() });
+    let ledger = |name: &'static str, t: LedgerTransaction| Seed { name, kind: Kind::Ledger, raw: t.to_raw().expect("encodes").to_vec() };
+    out.push(ledger(
+        "ledger-round-update",
+        LedgerTransaction::RoundUpdateV1(Box::new(RoundUpdateTransactionV1 {
+            proposer_timestamp_ms: 1_700_000_000_123,
+            epoch: Epoch::of(3),
+            round: Round::of(7),
+            leader_proposal_history: LeaderProposalHistory { gap_round_leaders: vec![1, 2], current_leader: 3, is_fallback: false },
+        })),
+    ));
+    out.push(ledger("ledger-genesis-flash", LedgerTransaction::Genesis(Box::new(GenesisTransaction::Flash))));
+    out.push(ledger(
+        "ledger-genesis-system",
+        LedgerTransaction::Genesis(Box::new(GenesisTransaction::Transaction(Box::new(SystemTransactionV1 {
+            instructions: InstructionsV1(ManifestBuilder::new().drop_auth_zone_proofs().build().instructions),
+            blobs: BlobsV1 { blobs: vec![BlobV1(vec![1, 2, 3])] },
+            pre_allocated_addresses: vec![],
+            hash_for_execution: hash(b"genesis seed"),
+        })))),
+    ));
+    out.push(ledger(
+        "ledger-flash",
+        LedgerTransaction::FlashV1(Box::new(FlashTransactionV1 {
+            name: "flash".to_string(),
+            state_updates: StateUpdates::empty().set_substate(CONSENSUS_MANAGER, PartitionNumber(5), SubstateKey::Field(1), 17u32),
+        })),
+    ));
+    out.push(ledger("ledger-user-v1", LedgerTransaction::UserV1(Box::new(user_v1.unwrap()))));
+    out.push(ledger("ledger-user-v2", LedgerTransaction::UserV2(Box::new(user_v2.unwrap()))));
+    out
+}
+
+// ------------------------------------------------------------------------------------------------
+// what the real code says about a payload, and the typed content of each hashed part
+// ------------------------------------------------------------------------------------------------
+
+struct Analysis {
+    /// part name -> hash, from the real preparation
+    hashes: BTreeMap<String, Hash>,
+    /// part name -> canonical encoding of the typed part; None if the typed decode failed
+    contents: Option<BTreeMap<String, Vec<u8>>>,
+    /// typed re-encoding of the whole payload
+    reencoded: Option<Vec<u8>>,
+    top: Option<&'static str>,
+}
+
+fn user_hashes(p: &PreparedUserTransaction, prefix: &str, out: &mut BTreeMap<String, Hash>) {
+    let h = p.hashes();
+    out.insert(format!("{prefix}intent"), h.transaction_intent_hash.0);
+    out.insert(format!("{prefix}signed_intent"), h.signed_transaction_intent_hash.0);
+    out.insert(format!("{prefix}notarized"), h.notarized_transaction_hash.0);
+    for (i, s) in h.non_root_subintent_hashes.iter().enumerate() {
+        out.insert(format!("{prefix}subintent[{i}]"), s.0);
+    }
+}
+
+fn user_contents(t: &UserTransaction, prefix: &str, out: &mut BTreeMap<String, Vec<u8>>) {
+    match t {
+        UserTransaction::V1(t) => {
+            out.insert(format!("{prefix}intent"), manifest_encode(&t.signed_intent.intent).unwrap());
+            out.insert(format!("{prefix}signed_intent"), manifest_encode(&t.signed_intent).unwrap());
+            out.insert(format!("{prefix}notarized"), t.to_raw().unwrap().to_vec());
+        }
+        UserTransaction::V2(t) => {
+            let si = &t.signed_transaction_intent;
+            out.insert(format!("{prefix}intent"), manifest_encode(&si.transaction_intent).unwrap());
+            out.insert(format!("{prefix}signed_intent"), manifest_encode(si).unwrap());
+            out.insert(format!("{prefix}notarized"), t.to_raw().unwrap().to_vec());
+            for (i, s) in si.transaction_intent.non_root_subintents.0.iter().enumerate() {
+                out.insert(format!("{prefix}subintent[{i}]"), manifest_encode(s).unwrap());
+            }
+        }
+    }
+}
+
+fn analyse(kind: Kind, bytes: &[u8], settings: &PreparationSettings) -> Result<Analysis, String> {
+    let label = |e: PrepareError| -> String {
+        let d = format!("{e:?}");
+        let head: String = d.split(|c: char| c == '(' || c == '{' || c == ' ').next().unwrap_or("").to_string();
+        if let PrepareError::DecodeError(de) = &e {
+            format!("DecodeError:{}", format!("{de:?}").split(|c: char| c == '(' || c == '{' || c == ' ').next().unwrap_or(""))
+        } else {
+            head
+        }
+    };
+    let mut hashes = BTreeMap::new();
+    let mut contents = BTreeMap::new();
+    match kind {
+        Kind::User => {
+            let raw = RawNotarizedTransaction::from_slice(bytes);
+            let prepared = raw.prepare(settings).map_err(label)?;
+            user_hashes(&prepared, "", &mut hashes);
+            let typed = UserTransaction::from_raw(&raw).ok();
+            let reencoded = typed.as_ref().map(|t| match t {
+                UserTransaction::V1(t) => t.to_raw().unwrap().to_vec(),
+                UserTransaction::V2(t) => t.to_raw().unwrap().to_vec(),
+            });
+            if let Some(t) = &typed {
+                user_contents(t, "", &mut contents);
+            }
+            Ok(Analysis { hashes, contents: typed.map(|_| contents), reencoded, top: Some("notarized") })
+        }
+        Kind::Partial => {
+            let raw = RawSignedPartialTransaction::from_slice(bytes);
+            let prepared = PreparedSignedPartialTransactionV2::prepare(&raw, settings).map_err(label)?;
+            hashes.insert("root_subintent".into(), prepared.partial_transaction.root_subintent.subintent_hash().0);
+            for (i, s) in prepared.partial_transaction.non_root_subintents.subintents.iter().enumerate() {
+                hashes.insert(format!("subintent[{i}]"), s.subintent_hash().0);
+            }
+            let typed = SignedPartialTransactionV2::from_raw(&raw).ok();
+            if let Some(t) = &typed {
+                contents.insert("root_subintent".into(), manifest_encode(&t.partial_transaction.root_subintent).unwrap());
+                for (i, s) in t.partial_transaction.non_root_subintents.0.iter().enumerate() {
+                    contents.insert(format!("subintent[{i}]"), manifest_encode(s).unwrap());
+                }
+            }
+            let reencoded = typed.as_ref().map(|t| t.to_raw().unwrap().to_vec());
+            Ok(Analysis { hashes, contents: typed.map(|_| contents), reencoded, top: None })
+        }
+        Kind::Ledger => {
+            let raw = RawLedgerTransaction::from_slice(bytes);
+            let prepared = raw.prepare(settings).map_err(label)?;
+            let h = prepared.create_hashes();
+            hashes.insert("ledger".into(), h.ledger_transaction_hash.0);
+            match &prepared.inner {
+                PreparedLedgerTransactionInner::Genesis(g) => {
+                    hashes.insert("inner:genesis".into(), g.system_transaction_hash().0);
+                }
+                PreparedLedgerTransactionInner::User(u) => user_hashes(u, "inner:", &mut hashes),
+                PreparedLedgerTransactionInner::Validator(v) => {
+                    hashes.insert("inner:round_update".into(), v.round_update_transaction_hash().0);
+                }
+                PreparedLedgerTransactionInner::ProtocolUpdate(f) => {
+                    hashes.insert("inner:flash".into(), f.flash_transaction_hash().0);
+                }
+            }
+            let typed = LedgerTransaction::from_raw(&raw).ok();
+            if let Some(t) = &typed {
+                contents.insert("ledger".into(), manifest_encode(t).unwrap());
+                match t {
+                    LedgerTransaction::Genesis(g) => {
+                        contents.insert("inner:genesis".into(), manifest_encode(g.as_ref()).unwrap());
+                    }
+                    LedgerTransaction::UserV1(u) => user_contents(&UserTransaction::V1(u.as_ref().clone()), "inner:", &mut contents),
+                    LedgerTransaction::UserV2(u) => user_contents(&UserTransaction::V2(u.as_ref().clone()), "inner:", &mut contents),
+                    LedgerTransaction::RoundUpdateV1(r) => {
+                        contents.insert("inner:round_update".into(), manifest_encode(r.as_ref()).unwrap());
+                    }
+                    LedgerTransaction::FlashV1(f) => {
+                        contents.insert("inner:flash".into(), manifest_encode(f.as_ref()).unwrap());
+                    }
+                }
+            }
+            let reencoded = typed.as_ref().map(|t| t.to_raw().unwrap().to_vec());
+            Ok(Analysis { hashes, contents: typed.map(|_| contents), reencoded, top: Some("ledger") })
+        }
+    }
+}
+
+// ------------------------------------------------------------------------------------------------
+// the oracle for one derived payload
+// ------------------------------------------------------------------------------------------------
+
+#[derive(Clone, Copy, PartialEq, Eq)]
+enum Demand {
+    /// the statement says this payload must be rejected
+    MustReject,
+    None,
+}
+
+struct Stats {
+    accepted_mutants: AtomicU64,
+    payloads: AtomicU64,
+}
+
+#[allow(clippy::too_many_arguments)]
+fn check_payload(seed: &Seed, orig: &Analysis, p: &[u8], how: &str, family: &str, demand: Demand, settings: &PreparationSettings, l: &mut Local, stats: &Stats) {
+    l.eval();
+    stats.payloads.fetch_add(1, Ordering::Relaxed);
+    let case = || json!({"seed": seed.name, "kind": format!("{:?}", seed.kind), "derivation": how, "payload_hex": mc_core::hex(p), "seed_hex": mc_core::hex(&seed.raw)});
+    let res = match catch(|| analyse(seed.kind, p, settings)) {
+        Ok(r) => r,
+        Err(panic) => {
+            l.class(&format!("{family}:panicked"));
+            l.info(&format!("panic:{}:{}", seed.name, mc_core::truncate(&panic, 80)));
+            return;
+        }
+    };
+    let a = match res {
+        Err(why) => {
+            l.class(&format!("{family}:rejected:{why}"));
+            return;
+        }
+        Ok(a) => a,
+    };
+    if p == seed.raw.as_slice() {
+        l.class(&format!("{family}:identical-to-seed"));
+        return;
+    }
+    stats.accepted_mutants.fetch_add(1, Ordering::Relaxed);
+    if demand == Demand::MustReject {
+        l.violation(format!("{family}:accepted-but-must-be-rejected"), format!("{how}: the payload prepares"), case());
+        return;
+    }
+    // (a) canonical
+    match &a.reencoded {
+        Some(r) if r.as_slice() != p => {
+            l.violation(format!("{family}:accepted-non-canonical-payload"), format!("{how}: prepares, decodes, but re-encodes to different bytes"), case());
+            return;
+        }
+        None => l.info(&format!("{family}:prepared-but-typed-decode-fails")),
+        _ => {}
+    }
+    // (b) top level: different canonical bytes => different identifier
+    if let Some(top) = a.top {
+        if a.hashes.get(top) == orig.hashes.get(top) {
+            l.violation(format!("{family}:different-payload-same-{top}-hash"), format!("{how}: payload differs from the seed but the {top} hash is unchanged"), case());
+            return;
+        }
+    }
+    let mut changed_parts = vec![];
+    if let (Some(c0), Some(c1)) = (&orig.contents, &a.contents) {
+        for (name, h1) in &a.hashes {
+            let (Some(h0), Some(b0), Some(b1)) = (orig.hashes.get(name), c0.get(name), c1.get(name)) else { continue };
+            let same_content = b0 == b1;
+            let same_hash = h0 == h1;
+            if !same_content {
+                changed_parts.push(name.as_str());
+            }
+            if same_content != same_hash {
+                let key = if same_hash { format!("{family}:content-changed-hash-unchanged:{}", strip_index(name)) } else { format!("{family}:hash-changed-content-unchanged:{}", strip_index(name)) };
+                l.violation(key, format!("{how}: part {name}: content {} but hash {}", if same_content { "unchanged" } else { "changed" }, if same_hash { "unchanged" } else { "changed" }), case());
+                return;
+            }
+        }
+    }
+    let cls = if changed_parts.is_empty() { "none-of-the-hashed-parts".to_string() } else { changed_parts.iter().map(|s| strip_index(s)).collect::<std::collections::BTreeSet<_>>().into_iter().collect::<Vec<_>>().join("+") };
+    l.class(&format!("{family}:accepted:changes:{cls}"));
+    if family == "tree" {
+        l.sample(|| json!({"seed": seed.name, "derivation": how, "changed_parts": changed_parts}));
+    }
+}
+
+fn strip_index(s: &str) -> String {
+    match s.find('[') {
+        Some(i) => s[..i].to_string(),
+        None => s.to_string(),
+    }
+}
+
+// ------------------------------------------------------------------------------------------------
+// structural perturbations of the ManifestValue tree
+// ------------------------------------------------------------------------------------------------
+
+fn child_count(v: &ManifestValue) -> usize {
+    match v {
+        ManifestValue::Enum { fields, .. } | ManifestValue::Tuple { fields } => fields.len(),
+        ManifestValue::Array { elements, .. } => elements.len(),
+        ManifestValue::Map { entries, .. } => entries.len() * 2,
+        _ => 0,
+    }
+}
+
+fn child_mut(v: &mut ManifestValue, i: usize) -> &mut ManifestValue {
+    match v {
+        ManifestValue::Enum { fields, .. } | ManifestValue::Tuple { fields } => &mut fields[i],
+        ManifestValue::Array { elements, .. } => &mut elements[i],
+        ManifestValue::Map { entries, .. } => {
+            if i % 2 == 0 {
+                &mut entries[i / 2].0
+            } else {
+                &mut entries[i / 2].1
+            }
+        }
+        _ => unreachable!(),
+    }
+}
+
+fn child_ref(v: &ManifestValue, i: usize) -> &ManifestValue {
+    match v {
+        ManifestValue::Enum { fields, .. } | ManifestValue::Tuple { fields } => &fields[i],
+        ManifestValue::Array { elements, .. } => &elements[i],
+        ManifestValue::Map { entries, .. } => {
+            if i % 2 == 0 {
+                &entries[i / 2].0
+            } else {
+                &entries[i / 2].1
+            }
+        }
+        _ => unreachable!(),
+    }
+}
+
+/// Apply local perturbation k to this node; returns its label, or None if k is out of range / not applicable.
+fn perturb_local(v: &mut ManifestValue, k: usize) -> Option<String> {
+    macro_rules! int {
+        ($value:expr) => {
+            match k {
+                0 => {
+                    *$value = $value.wrapping_add(1);
+                    Some("+1".to_string())
+                }
+                1 => {
+                    *$value = $value.wrapping_sub(1);
+                    Some("-1".to_string())
+                }
+                _ => None,
+            }
+        };
+    }
+    match v {
+        ManifestValue::Bool { value } => (k == 0).then(|| {
+            *value = !*value;
+            "flip".to_string()
+        }),
+        ManifestValue::I8 { value } => int!(value),
+        ManifestValue::I16 { value } => int!(value),
+        ManifestValue::I32 { value } => int!(value),
+        ManifestValue::I64 { value } => int!(value),
+        ManifestValue::I128 { value } => int!(value),
+        ManifestValue::U8 { value } => int!(value),
+        ManifestValue::U16 { value } => int!(value),
+        ManifestValue::U32 { value } => int!(value),
+        ManifestValue::U64 { value } => int!(value),
+        ManifestValue::U128 { value } => int!(value),
+        ManifestValue::String { value } => match k {
+            0 => {
+                value.push('x');
+                Some("append-char".into())
+            }
+            1 if !value.is_empty() => {
+                value.pop();
+                Some("drop-char".into())
+            }
+            2 if !value.is_empty() => {
+                let first = value.remove(0);
+                value.insert(0, if first == 'q' { 'r' } else { 'q' });
+                Some("change-char".into())
+            }
+            _ => None,
+        },
+        ManifestValue::Enum { discriminator, fields } => match k {
+            0 => {
+                *discriminator = discriminator.wrapping_add(1);
+                Some("discriminator+1".into())
+            }
+            1 => {
+                *discriminator = discriminator.wrapping_sub(1);
+                Some("discriminator-1".into())
+            }
+            2 => {
+                fields.push(ManifestValue::U8 { value: 0 });
+                Some("add-field".into())
+            }
+            3 if !fields.is_empty() => {
+                fields.pop();
+                Some("remove-field".into())
+            }
+            _ => None,
+        },
+        ManifestValue::Tuple { fields } => match k {
+            0 => {
+                fields.push(ManifestValue::U8 { value: 0 });
+                Some("add-field".into())
+            }
+            1 if !fields.is_empty() => {
+                fields.pop();
+                Some("remove-field".into())
+            }
+            _ => None,
+        },
+        ManifestValue::Array { element_value_kind, elements } => match k {
+            0 => {
+                if let Some(last) = elements.last().cloned() {
+                    elements.push(last);
+                    Some("duplicate-last-element".into())
+                } else if *element_value_kind == ManifestValueKind::U8 {
+                    elements.push(ManifestValue::U8 { value: 0 });
+                    Some("add-element".into())
+                } else if *element_value_kind == ManifestValueKind::Tuple {
+                    elements.push(ManifestValue::Tuple { fields: vec![] });
+                    Some("add-empty-tuple-element".into())
+                } else {
+                    None
+                }
+            }
+            1 if !elements.is_empty() => {
+                elements.pop();
+                Some("remove-last-element".into())
+            }
+            2 if elements.len() >= 2 => {
+                elements.swap(0, 1);
+                Some("swap-first-two-elements".into())
+            }
+            _ => None,
+        },
+        ManifestValue::Map { entries, .. } => match k {
+            0 if !entries.is_empty() => {
+                entries.pop();
+                Some("remove-last-entry".into())
+            }
+            1 if entries.len() >= 2 => {
+                entries.swap(0, 1);
+                Some("swap-first-two-entries".into())
+            }
+            _ => None,
+        },
+        ManifestValue::Custom { value } => {
+            if k != 0 {
+                return None;
+            }
+            match value {
+                ManifestCustomValue::Address(ManifestAddress::Static(node)) => {
+                    node.0[29] ^= 1;
+                    Some("address-flip-bit".into())
+                }
+                ManifestCustomValue::Address(ManifestAddress::Named(n)) => {
+                    n.0 = n.0.wrapping_add(1);
+                    Some("named-address+1".into())
+                }
+                ManifestCustomValue::Bucket(b) => {
+                    b.0 = b.0.wrapping_add(1);
+                    Some("bucket+1".into())
+                }
+                ManifestCustomValue::Proof(b) => {
+                    b.0 = b.0.wrapping_add(1);
+                    Some("proof+1".into())
+                }
+                ManifestCustomValue::AddressReservation(b) => {
+                    b.0 = b.0.wrapping_add(1);
+                    Some("reservation+1".into())
+                }
+                ManifestCustomValue::Expression(e) => {
+                    *e = match e {
+                        ManifestExpression::EntireWorktop => ManifestExpression::EntireAuthZone,
+                        ManifestExpression::EntireAuthZone => ManifestExpression::EntireWorktop,
+                    };
+                    Some("expression-toggle".into())
+                }
+                ManifestCustomValue::Blob(b) => {
+                    b.0[0] ^= 1;
+                    Some("blob-ref-flip-bit".into())
+                }
+                ManifestCustomValue::Decimal(d) => {
+                    d.0[0] ^= 1;
+                    Some("decimal-flip-bit".into())
+                }
+                ManifestCustomValue::PreciseDecimal(d) => {
+                    d.0[0] ^= 1;
+                    Some("precise-decimal-flip-bit".into())
+                }
+                ManifestCustomValue::NonFungibleLocalId(_) => None,
+            }
+        }
+    }
+}
+
+const MAX_LOCAL: usize = 4;
+
+fn collect_paths(v: &ManifestValue, cur: &mut Vec<usize>, out: &mut Vec<Vec<usize>>) {
+    out.push(cur.clone());
+    for i in 0..child_count(v) {
+        cur.push(i);
+        collect_paths(child_ref(v, i), cur, out);
+        cur.pop();
+    }
+}
+
+// ------------------------------------------------------------------------------------------------
+
+/// seeds that additionally get every substitution of two adjacent bytes (thorough tier)
+const DOUBLE_MUTATION_SEEDS: [&str; 6] = ["v1-signed-blobs-plaintext", "v2-nested-subintents", "partial-signed", "ledger-round-update", "ledger-genesis-system", "ledger-flash"];
+
+pub fn run(ctx: Ctx) -> ! {
+    assert_signing_is_deterministic();
+    let settings = PreparationSettings::latest();
+    let seeds = seeds();
+    let stats = Stats { accepted_mutants: AtomicU64::new(0), payloads: AtomicU64::new(0) };
+
+    if let Some(case) = ctx.read_replay_case() {
+        let name = case.get("seed").and_then(|x| x.as_str()).unwrap_or("");
+        let Some(seed) = seeds.iter().find(|s| s.name == name) else { mc_core::machinery_error("C32 replay: unknown seed") };
+        let p = mc_core::unhex(case.get("payload_hex").and_then(|x| x.as_str()).unwrap_or(""));
+        let orig = analyse(seed.kind, &seed.raw, &settings).unwrap_or_else(|e| mc_core::machinery_error(&format!("seed does not prepare: {e}")));
+        let how = case.get("derivation").and_then(|x| x.as_str()).unwrap_or("replay").to_string();
+        let family = how.split(':').next().unwrap_or("byte").to_string();
+        let demand = if how.contains("[must-reject]") { Demand::MustReject } else { Demand::None };
+        let mut l = Local::new();
+        match analyse(seed.kind, &p, &settings) {
+            Ok(a) => {
+                for (k, h) in &a.hashes {
+                    println!("  {k}: {h} (seed: {})", orig.hashes.get(k).map(|h| h.to_string()).unwrap_or("-".into()));
+                }
+            }
+            Err(e) => println!("  rejected: {e}"),
+        }
+        check_payload(seed, &orig, &p, &how, &family, demand, &settings, &mut l, &stats);
+        ctx.merge(l);
+        ctx.finish(Level::Exploration, "replay", 1, false, Map::new(), &[]);
+    }
+
+    // ---- (1) seeds: canonical form, stable hashes --------------------------------------------------------
+    let mut origs = vec![];
+    {
+        let mut l = Local::new();
+        for seed in &seeds {
+            l.eval();
+            let a = match analyse(seed.kind, &seed.raw, &settings) {
+                Ok(a) => a,
+                Err(e) => mc_core::machinery_error(&format!("C32: seed {} does not prepare: {e}", seed.name)),
+            };
+            let case = || json!({"seed": seed.name, "seed_hex": mc_core::hex(&seed.raw)});
+            match &a.reencoded {
+                Some(r) if *r == seed.raw => l.class("seed:roundtrips-and-prepares"),
+                Some(_) => l.violation("seed:reencoding-differs", "to_raw(from_raw(raw)) != raw for a payload produced by the encoder", case()),
+                None => l.violation("seed:typed-decode-fails", "a payload produced by the encoder does not decode", case()),
+            }
+            let again = analyse(seed.kind, &seed.raw, &settings).unwrap();
+            if again.hashes != a.hashes {
+                l.violation("seed:hashes-not-stable", "preparing the same payload twice gives different hashes", case());
+            }
+            // preparing from the typed model (encode + prepare) must agree with preparing the raw payload
+            let via_typed: Option<BTreeMap<String, Hash>> = match seed.kind {
+                Kind::User => UserTransaction::from_raw(&RawNotarizedTransaction::from_slice(&seed.raw)).ok().and_then(|t| t.prepare(&settings).ok()).map(|p| {
+                    let mut m = BTreeMap::new();
+                    user_hashes(&p, "", &mut m);
+                    m
+                }),
+                _ => None,
+            };
+            if let Some(m) = via_typed {
+                if m != a.hashes {
+                    l.violation("seed:typed-prepare-differs", "hashes via the typed model differ from hashes via the raw payload", case());
+                }
+            }
+            // distinct hashed parts of one payload have distinct hashes (domain separation of intent / signed / notarized)
+            let mut seen: BTreeMap<Hash, &String> = BTreeMap::new();
+            for (k, h) in &a.hashes {
+                if let Some(other) = seen.insert(*h, k) {
+                    let same_content = a.contents.as_ref().map(|c| c.get(k) == c.get(other)).unwrap_or(false);
+                    if !same_content && !(k.starts_with("inner:") || other.starts_with("inner:") || k == "ledger" || other == "ledger") {
+                        l.violation("seed:two-parts-share-a-hash", format!("{k} and {other} have the same hash"), case());
+                    }
+                }
+            }
+            l.sample(|| json!({"seed": seed.name, "bytes": seed.raw.len(), "hashes": a.hashes.iter().map(|(k, h)| (k.clone(), h.to_string())).collect::<BTreeMap<_, _>>()}));
+            origs.push(a);
+        }
+        ctx.merge(l);
+    }
+
+    // ---- (2) structural perturbations ------------------------------------------------------------------
+    let mut tree_jobs: Vec<(usize, Vec<usize>)> = vec![];
+    let mut trees = vec![];
+    for (si, seed) in seeds.iter().enumerate() {
+        let tree: ManifestValue = manifest_decode(&seed.raw).unwrap_or_else(|e| mc_core::machinery_error(&format!("seed {} is not a manifest value: {e:?}", seed.name)));
+        if manifest_encode(&tree).unwrap() != seed.raw {
+            mc_core::machinery_error("value-tree round trip of a seed is not the identity; structural perturbations would be meaningless");
+        }
+        let mut paths = vec![];
+        collect_paths(&tree, &mut vec![], &mut paths);
+        for p in paths {
+            tree_jobs.push((si, p));
+        }
+        trees.push(tree);
+    }
+    let tree_nodes = tree_jobs.len();
+    let tree_cases = AtomicU64::new(0);
+    par_range(&ctx, tree_jobs.len() as u64, 64, |j, l| {
+        let (si, path) = &tree_jobs[j as usize];
+        for k in 0..MAX_LOCAL {
+            let mut t = trees[*si].clone();
+            let mut node = &mut t;
+            for i in path {
+                node = child_mut(node, *i);
+            }
+            let Some(label) = perturb_local(node, k) else { continue };
+            let Ok(p) = manifest_encode(&t) else {
+                l.info("tree:perturbed-tree-not-encodable");
+                continue;
+            };
+            tree_cases.fetch_add(1, Ordering::Relaxed);
+            let how = format!("tree:/{}:{label}", path.iter().map(|x| x.to_string()).collect::<Vec<_>>().join("/"));
+            check_payload(&seeds[*si], &origs[*si], &p, &how, "tree", Demand::None, &settings, l, &stats);
+        }
+    });
+
+    // ---- (3) byte-level mutations ------------------------------------------------------------------------
+    let double = !ctx.quick();
+    let double_payloads = AtomicU64::new(0);
+    let mut byte_jobs: Vec<(usize, usize)> = vec![]; // (seed, offset)
+    for (si, seed) in seeds.iter().enumerate() {
+        for off in 0..seed.raw.len() {
+            byte_jobs.push((si, off));
+        }
+    }
+    par_range(&ctx, byte_jobs.len() as u64, 4, |j, l| {
+        let (si, off) = byte_jobs[j as usize];
+        let seed = &seeds[si];
+        let orig = &origs[si];
+        let mut buf = seed.raw.clone();
+        for b in 0..=255u8 {
+            if b == seed.raw[off] {
+                continue;
+            }
+            buf[off] = b;
+            // statement: wrong payload prefix / wrong top-level discriminator must be rejected
+            let must = off == 0 || off == 2;
+            let how = format!("byte:substitute@{off}={b:#04x}{}", if must { "[must-reject]" } else { "" });
+            check_payload(seed, orig, &buf, &how, "byte", if must { Demand::MustReject } else { Demand::None }, &settings, l, &stats);
+        }
+        buf[off] = seed.raw[off];
+        if double && off + 1 < seed.raw.len() && DOUBLE_MUTATION_SEEDS.contains(&seed.name) {
+            let must = off == 0 || off == 2 || off + 1 == 2;
+            for b1 in 0..=255u8 {
+                if b1 == seed.raw[off] {
+                    continue;
+                }
+                buf[off] = b1;
+                for b2 in 0..=255u8 {
+                    if b2 == seed.raw[off + 1] {
+                        continue;
+                    }
+                    buf[off + 1] = b2;
+                    let how = format!("byte2:substitute@{off}={b1:#04x},{b2:#04x}{}", if must { "[must-reject]" } else { "" });
+                    check_payload(seed, orig, &buf, &how, "byte2", if must { Demand::MustReject } else { Demand::None }, &settings, l, &stats);
+                }
+            }
+            double_payloads.fetch_add(255 * 255, Ordering::Relaxed);
+            buf[off] = seed.raw[off];
+            buf[off + 1] = seed.raw[off + 1];
+        }
+        let mut v = seed.raw.clone();
+        v.remove(off);
+        check_payload(seed, orig, &v, &format!("byte:delete@{off}"), "byte", Demand::None, &settings, l, &stats);
+        let mut v = seed.raw.clone();
+        v.insert(off, seed.raw[off]);
+        check_payload(seed, orig, &v, &format!("byte:duplicate@{off}"), "byte", Demand::None, &settings, l, &stats);
+        check_payload(seed, orig, &seed.raw[..off], &format!("byte:truncate@{off}"), "byte", Demand::None, &settings, l, &stats);
+    });
+    {
+        let mut l = Local::new();
+        for (si, seed) in seeds.iter().enumerate() {
+            for b in 0..=255u8 {
+                let mut v = seed.raw.clone();
+                v.push(b);
+                check_payload(seed, &origs[si], &v, &format!("trailing:append={b:#04x}[must-reject]"), "trailing", Demand::MustReject, &settings, &mut l, &stats);
+            }
+        }
+        ctx.merge(l);
+    }
+
+    // ---- (c) PreparationSettings limits at lim / lim+1 ------------------------------------------------------
+    let limit_cases = std::cell::Cell::new(0u64);
+    {
+        let mut l = Local::new();
+        let one = |name: &str, raw: Vec<u8>, kind: Kind, within: bool, l: &mut Local| {
+            l.eval();
+            limit_cases.set(limit_cases.get() + 1);
+            let r = analyse(kind, &raw, &settings);
+            match (within, r.is_ok()) {
+                (true, true) => l.class("limit:at-limit-prepares"),
+                (false, false) => l.class("limit:over-limit-rejected"),
+                (true, false) => l.violation(format!("limit:{name}:rejected-at-limit"), format!("{name}: a payload exactly at the limit is rejected: {:?}", r.err()), json!({"limit": name, "payload_len": raw.len()})),
+                (false, true) => l.violation(format!("limit:{name}:accepted-over-limit"), format!("{name}: a payload over the limit prepares"), json!({"limit": name, "payload_len": raw.len()})),
+            }
+        };
+        for v2 in [false, true] {
+            for n in [settings.max_blobs, settings.max_blobs + 1] {
+                let mut s = TxSpec::base(v2);
+                s.root.blobs = n;
+                one("max_blobs", build(&s).unwrap().1.to_vec(), Kind::User, n <= settings.max_blobs, &mut l);
+            }
+            for n in [settings.max_user_payload_length, settings.max_user_payload_length + 1] {
+                let mut s = TxSpec::base(v2);
+                s.pad_payload_to = Some(n);
+                let raw = build(&s).expect("padding reachable").1.to_vec();
+                assert_eq!(raw.len(), n);
+                one("max_user_payload_length", raw, Kind::User, n <= settings.max_user_payload_length, &mut l);
+            }
+        }
+        for n in [settings.max_subintents_per_transaction, settings.max_subintents_per_transaction + 1] {
+            // breadth-first fill with at most max_child_subintents_per_intent children each
+            let cap = settings.max_child_subintents_per_intent;
+            let mut s = TxSpec::base(true);
+            for i in 0..n {
+                s.subs.push(IntentSpec::base(i as u32 + 1));
+                if i < cap {
+                    s.root.children.push(i);
+                } else {
+                    s.subs[(i - cap) / cap].children.push(i);
+                }
+            }
+            one("max_subintents_per_transaction", build(&s).unwrap().1.to_vec(), Kind::User, n <= settings.max_subintents_per_transaction, &mut l);
+        }
+        {
+            // children per intent: the limit equals the subintent limit in the real settings, so use custom settings for lim+1
+            let mut custom = settings;
+            custom.max_child_subintents_per_intent = 3;
+            for n in [3usize, 4] {
+                let mut s = TxSpec::base(true);
+                for i in 0..n {
+                    s.subs.push(IntentSpec::base(i as u32 + 1));
+                    s.root.children.push(i);
+                }
+                let raw = build(&s).unwrap().1;
+                l.eval();
+                limit_cases.set(limit_cases.get() + 1);
+                let ok = raw.prepare(&custom).is_ok();
+                if ok != (n <= 3) {
+                    l.violation("limit:max_child_subintents_per_intent", format!("{n} children with a limit of 3: prepares = {ok}"), json!({"children": n}));
+                } else {
+                    l.class(if ok { "limit:at-limit-prepares" } else { "limit:over-limit-rejected" });
+                }
+            }
+        }
+        // ledger payload length: wrap a padded user transaction
+        for n in [settings.max_ledger_payload_length, settings.max_ledger_payload_length + 1] {
+            let mut found = None;
+            for inner in (n.saturating_sub(16)..=n).rev() {
+                let mut s = TxSpec::base(false);
+                s.pad_payload_to = Some(inner);
+                if let Some((BuiltTx::V1(t), _)) = build(&s) {
+                    let raw = LedgerTransaction::UserV1(Box::new(t)).to_raw().unwrap().to_vec();
+                    if raw.len() == n {
+                        found = Some(raw);
+                        break;
+                    }
+                }
+            }
+            match found {
+                Some(raw) => one("max_ledger_payload_length", raw, Kind::Ledger, n <= settings.max_ledger_payload_length, &mut l),
+                None => l.info("limit:ledger-payload-length-not-constructible"),
+            }
+        }
+        // V2 payloads when V2 is not permitted
+        {
+            l.eval();
+            limit_cases.set(limit_cases.get() + 1);
+            let raw = build(&TxSpec::base(true)).unwrap().1;
+            if raw.prepare(&PreparationSettings::babylon()).is_ok() {
+                l.violation("limit:v2-prepares-under-babylon-settings", "a V2 payload prepares with v2_transactions_permitted = false", json!({}));
+            } else {
+                l.class("limit:over-limit-rejected");
+            }
+        }
+        ctx.merge(l);
+    }
+
+    let mut cov = Map::new();
+    cov.insert("seeds".into(), json!(seeds.iter().map(|s| json!({"name": s.name, "bytes": s.raw.len()})).collect::<Vec<_>>()));
+    cov.insert("tree_nodes".into(), json!(tree_nodes));
+    cov.insert("tree_perturbations".into(), json!(tree_cases.load(Ordering::Relaxed)));
+    cov.insert("byte_offsets".into(), json!(byte_jobs.len()));
+    cov.insert("substitution_values_per_offset".into(), json!("all 255"));
+    cov.insert("adjacent_double_substitutions".into(), json!(double_payloads.load(Ordering::Relaxed)));
+    cov.insert("adjacent_double_substitution_seeds".into(), json!(if double { DOUBLE_MUTATION_SEEDS.to_vec() } else { vec![] }));
+    cov.insert("derived_payloads".into(), json!(stats.payloads.load(Ordering::Relaxed)));
+    cov.insert("derived_payloads_that_prepare".into(), json!(stats.accepted_mutants.load(Ordering::Relaxed)));
+    cov.insert("limit_cases".into(), json!(limit_cases.get()));
+    ctx.finish(
+        Level::Exploration,
+        "a case is one payload derived from a seed (structural perturbation of one value-tree node, or one byte-level mutation, or a limit probe) prepared by the real code; non-trivial = derived payloads different from their seed that the real preparation accepts (they are the ones on which the content<=>hash oracle actually bites)",
+        stats.accepted_mutants.load(Ordering::Relaxed),
+        true,
+        cov,
+        &[
+            "blake2b is collision free on the explored payloads",
+            "the content of a hashed part is named by the canonical encoding of its typed model (typed PartialEq is not used: IndexMap equality ignores order)",
+            "payloads that prepare but do not decode as the typed model are only counted (no content to compare), except for the top-level rule: different bytes => different notarized / ledger hash",
+            "signed partial transactions have no hash of their own (only subintent hashes); mutations of their signature lists are not covered by any hash, by design of the model",
+        ],
+    )
 }
